@@ -410,6 +410,9 @@ func (c01) Run(plan interface{}, schedSeed uint64, replay []simrt.Choice, lenien
 	if pr.Asm.Err != "" {
 		v.Violate("unparsable", "stream does not parse as packets", "%s", pr.Asm.Err)
 	}
+	if rest := pr.Asm.Residue(); len(rest) > 0 && pr.Asm.Err == "" {
+		v.Violate("unparsable", "bytes left over behind the last packet", "%d bytes reached the transport behind the last complete packet (a header announcing more than was written?): % x", len(rest), short(string(rest), 16))
+	}
 	for _, e := range sendErrs {
 		v.Violate("send-error", "send returned an error", "%s", e)
 	}
@@ -476,6 +479,12 @@ func (c01) Run(plan interface{}, schedSeed uint64, replay []simrt.Choice, lenien
 					v.Violate("packet-number", "packet numbers not consecutive", "%s: packet %d has number %d, expected %d", where, i, pk.H.PacketNr, expectNr)
 				}
 				expectNr = (int(pk.H.PacketNr) + 1) % 256
+			}
+			if pk.H.Status&^peer.BufstatEOM != 0 {
+				v.Violate("wrong-status", "status bits other than end-of-message", "%s: packet %d has status %#x", where, i, pk.H.Status)
+			}
+			if !(p.Logical && !m.OnZero) && (pk.H.PacketNr != 0 || pk.H.Window != 0) {
+				v.Violate("wrong-header", "packet number or window on channel 0", "%s: packet %d on channel 0 carries number %d window %d", where, i, pk.H.PacketNr, pk.H.Window)
 			}
 			eom := pk.H.Status&peer.BufstatEOM != 0
 			if eom && !last {
